@@ -18,7 +18,18 @@ def fold(path):
 def justified(crate_name):
     with open(os.path.join(VERIF, "reference/justified_panics.json")) as fh:
         j = json.load(fh)
-    return {(e["caller"], e["callee"]): e for e in j.get(crate_name, [])}
+    return j.get(crate_name, [])
+
+
+def site_status(crate, s, entries):
+    """(status, reason) of one panic-capable call site: discharged by a guard found in the MIR, justified by an entry
+    keyed on what the call is applied to, or open"""
+    if s.get("discharged"):
+        return "discharged", s["discharged"]
+    e = panics.justification(crate, s["caller"], s["callee"], s.get("origin", ""), entries)
+    if e:
+        return "justified", e["reason"]
+    return "open", None
 
 
 def export_reach(crate):
@@ -31,7 +42,7 @@ def export_reach(crate):
 
 
 def export_panic_rule(crate, prop):
-    r = Result("C17.R3", "inventory of panic-capable call sites (unwrap/expect/index/panic!/bounds asserts) in everything reachable from export, export_all, export_all_to, export_to_string inside ts_rs (dispatch into TS impls excluded): each must be justified by an exact (caller, callee, count) entry")
+    r = Result("C17.R3", "inventory of panic-capable call sites (unwrap/expect/index/panic!/bounds asserts) in everything reachable from export, export_all, export_all_to, export_to_string inside ts_rs (dispatch into TS impls excluded): each must be discharged by a guard found in the MIR or justified by an entry keyed on the callee, on what it is applied to and on the function the code belongs to (helpers it was split into included)")
     for root in EXPORT_ROOTS:
         if crate.body(root) is None:
             r.fail(prop, "anchor-missing " + root, "export entry point %s not found" % root)
@@ -45,14 +56,15 @@ def export_panic_rule(crate, prop):
     just = justified(crate.name)
     g = panics.group(sites)
     for (caller, callee), ss in sorted(g.items()):
-        j = just.get((caller, callee))
+        st = [site_status(crate, s, just) for s in ss]
+        open_ = [s for s, (k, _) in zip(ss, st) if k == "open"]
         where = ", ".join(sorted({"%s:%s" % (s["file"], s["line"]) for s in ss}))
-        status = "justified" if j and len(ss) <= j["count"] else "unjustified"
-        r.inst(caller=caller, callee=callee, count=len(ss), where=where, status=status, reason=(j or {}).get("reason"))
-        if status != "justified":
-            r.fail(prop, panics.key(caller, callee, len(ss)),
-                   "%d panic-capable call(s) to %s on the export path with no justification (a panic here escapes export()/export_all() instead of an Err)" % (len(ss), callee),
-                   ss[0]["file"], ss[0]["line"], chain=_chain(parent, ss[0]["caller"]))
+        r.inst(caller=caller, callee=callee, count=len(ss), where=where, applied_to=sorted({s.get("origin", "") for s in ss}),
+               status="unjustified" if open_ else "/".join(sorted({k for k, _ in st})), reason=next((w for _, w in st if w), None))
+        if open_:
+            r.fail(prop, panics.key(caller, callee, len(open_)),
+                   "%d panic-capable call(s) to %s (applied to: %s) on the export path with no discharge or justification (a panic here escapes export()/export_all() instead of an Err)" % (len(open_), callee, open_[0].get("origin")),
+                   open_[0]["file"], open_[0]["line"], chain=_chain(parent, open_[0]["caller"]))
     r.stats = {"reachable_bodies": len(reach), "sites": len(sites)}
     r.floor = 4
     return r
@@ -92,6 +104,8 @@ def lock_panic_rule(crate, prop, fn_path="export::export_and_merge"):
                 n += 1
                 if b not in guard_producers:
                     lab = panics.classify_call(t)
+                    if lab and panics.discharged(body, {"block": b}):
+                        lab = None
                     if lab:
                         f, l = M.user_span(t["span"])
                         r.inst(fn=fn_path, callee=panics.short(t), direct=True, where="%s:%s" % (f, l))
@@ -111,7 +125,8 @@ def lock_panic_rule(crate, prop, fn_path="export::export_and_merge"):
         for p in sorted(seen):
             for bb in crate.by_path.get(p, []):
                 for s in panics.sites_in(bb):
-                    per.setdefault(fold(p), []).append(s)
+                    if not s.get("discharged"):
+                        per.setdefault(fold(p), []).append(s)
         for p, ss in sorted(per.items()):
             where = ", ".join(sorted({"%s:%s" % (s["file"], s["line"]) for s in ss}))
             r.inst(fn=fn_path, callee=p, direct=False, panic_sites=len(ss), where=where)
